@@ -1429,8 +1429,51 @@ func ruleWrapFileLoop(p *Prog, r *Report) {
 				}
 			}
 		}
-		if appended {
-			r.OK(rule, pr[0], "decoded Map appended", pos, "")
+		// … and only after the call's error has been looked at: a Map handed back together with an error is not one of "the Maps
+		// read so far"
+		untested := ""
+		{
+			tests := func(b *ssa.BasicBlock) bool {
+				ifi, ok := b.Instrs[len(b.Instrs)-1].(*ssa.If)
+				if !ok {
+					return false
+				}
+				for v := range backwardSlice(fn, ifi.Cond) {
+					if isErrorType(v.Type()) && isErrOf(fn, v, errv) {
+						return true
+					}
+				}
+				return false
+			}
+			seen := map[*ssa.BasicBlock]bool{}
+			var work []*ssa.BasicBlock
+			if !tests(rc.Block()) {
+				work = append(work, rc.Block().Succs...)
+			}
+			for len(work) > 0 {
+				b := work[len(work)-1]
+				work = work[:len(work)-1]
+				if seen[b] || b == rc.Block() {
+					continue
+				}
+				seen[b] = true
+				for _, in := range b.Instrs {
+					if c, ok := in.(*ssa.Call); ok {
+						if bi, ok := c.Call.Value.(*ssa.Builtin); ok && bi.Name() == "append" && inLoop[b] && forwardSlice(fn, res[0])[c] {
+							untested = p.Pos(c.Pos())
+						}
+					}
+				}
+				if tests(b) {
+					continue
+				}
+				work = append(work, b.Succs...)
+			}
+		}
+		if untested != "" {
+			r.Bad(rule, pr[0], "decoded Map appended", untested, "the Map is appended at "+untested+" before the reader's error has been tested: a partial Map delivered with an error ends up among the Maps returned")
+		} else if appended {
+			r.OK(rule, pr[0], "decoded Map appended", pos, "inside the loop, after a test of the reader's error")
 		} else {
 			r.Bad(rule, pr[0], "decoded Map appended", pos, "the Map returned by the reader never reaches the accumulator")
 		}
